@@ -169,6 +169,54 @@ def big_graphs(kind="all"):
     return out
 
 
+# ---- every size of a MEDIUM range, cheap shapes only.  Encoders that cut a sum / a conjunction into blocks (24, 40, 50 ... items) and
+# treat the leftover block separately change branch at sizes k*block + 1, k*block - 1 ...: which sizes those are is not known in
+# advance, so ALL sizes of the range are visited, with shapes that cost next to nothing: a path, a cycle, and a star whose hub (vertex
+# 0, degree n - 1) gets its spokes in index order and whose LAST two leaves are joined by a rim edge (the only cycle runs through the
+# hub's last two incident edges).
+
+MEDIUM_RANGE = (30, 130)
+
+
+def path_graph(n):
+    return n, [(i, i + 1) if i % 3 else (i + 1, i) for i in range(n - 1)]
+
+
+def cycle_graph(n):
+    return n, path_graph(n)[1] + [(n - 1, 0)]
+
+
+def star_rim_graph(n):
+    return n, [(0, i) if i % 4 else (i, 0) for i in range(1, n)] + [(n - 2, n - 1)]
+
+
+def medium_graphs(stars="all"):
+    """For every n of MEDIUM_RANGE: the star with a rim edge (stars='all'; 'rotate': only every third n, those with n % 3 == 2 -- hub
+    degrees 31, 34, ... -- ; 'none') and a path (n even) or a cycle (n odd)."""
+    out = []
+    for n in range(MEDIUM_RANGE[0], MEDIUM_RANGE[1] + 1):
+        if stars == "all" or (stars == "rotate" and n % 3 == 2):
+            out.append(star_rim_graph(n))
+        if stars == "rotate" and n % 3 == 2:
+            continue
+        out.append(cycle_graph(n) if n % 2 else path_graph(n))
+    return out
+
+
+def medium_grids():
+    """Tall thin boards of every height of MEDIUM_RANGE (width 1 or 2) and a few transposed ones."""
+    out = [(h, 2 if h % 3 else 1) for h in range(MEDIUM_RANGE[0], MEDIUM_RANGE[1] + 1)]
+    return out + [(1, 41), (2, 51), (2, 81), (1, 101), (2, 121), (3, 17), (3, 27), (17, 3)]
+
+
+def instance_name(n, edges):
+    edges = [tuple(e) for e in edges]
+    for f in (long_graph, sparse_graph, path_graph, cycle_graph, star_rim_graph):
+        if f(n)[1] == edges:
+            return "graphs.%s(%d)" % (f.__name__, n)
+    return "graph with %d vertices, %d edges" % (n, len(edges))
+
+
 BIG_GRIDS = ((6, 7), (16, 17), (13, 20))        # cells: 42, 272, 260
 BIG_FRAMES = ((5, 5), (6, 6), (15, 16))         # lattice points: 36, 49, 272
 
